@@ -42,6 +42,30 @@ pub fn declares_process_state(src: &str) -> Option<String> {
         if hit {
             return Some(format!("line {}: {}", n + 1, t.chars().take(90).collect::<String>()));
         }
+        // (round 11) a static whose declared type names a type of the program's own (CamelCase
+        // identifier other than Option): the interior mutability may sit inside that type (seeded
+        // `m44`: `static LANG_CACHE: [LangCacheSlot; N]`, a struct of two atomics). Plain tables
+        // (`[(u64, (Option<u64>, ..)); N]`, `&str`, integers) are not affected.
+        if is_static {
+            let after = t.split_once(':').map(|x| x.1).unwrap_or("");
+            let ty = after.split('=').next().unwrap_or("");
+            let mut ident = String::new();
+            let mut own_type = false;
+            for c in ty.chars().chain(std::iter::once(' ')) {
+                if c.is_ascii_alphanumeric() || c == '_' {
+                    ident.push(c);
+                } else {
+                    let camel = ident.chars().next().map(|c| c.is_ascii_uppercase()).unwrap_or(false) && ident.chars().any(|c| c.is_ascii_lowercase());
+                    if camel && ident != "Option" && ident != "PhantomData" {
+                        own_type = true;
+                    }
+                    ident.clear();
+                }
+            }
+            if own_type {
+                return Some(format!("line {}: {}", n + 1, t.chars().take(90).collect::<String>()));
+            }
+        }
     }
     None
 }
@@ -102,7 +126,7 @@ impl<'a> R<'a> {
 }
 
 fn stats_to_vec(s: &RunStats) -> Vec<u64> {
-    vec![s.read_dir_calls, s.read_dir_nonsorted, s.containers, s.containers_nonzero_keys, s.tweaks_applied, s.iterations, s.whole_file_reads, s.opens, s.short_reads, s.eintr, s.bytes_read, s.fs_escapes, s.prints, s.thread_spawns, s.thread_spawns_deferred, s.sched_steps, s.sched_choice_points, s.context_switches, s.sched_deviations, s.max_tasks, s.timeouts_offered, s.timeouts_fired, s.timeouts_natural, s.cores_asked, s.short_writes, s.write_eintr, s.stderr_prints, s.prints_after_exit, s.clock_reads, s.shuttle_runs, s.programs_spawned, s.programs_missing, s.fd_limit_decisions, s.emfile, s.max_open_fds, s.parallel_stages, s.read_faults_injected]
+    vec![s.read_dir_calls, s.read_dir_nonsorted, s.containers, s.containers_nonzero_keys, s.tweaks_applied, s.iterations, s.whole_file_reads, s.opens, s.short_reads, s.eintr, s.bytes_read, s.fs_escapes, s.prints, s.thread_spawns, s.thread_spawns_deferred, s.sched_steps, s.sched_choice_points, s.context_switches, s.sched_deviations, s.max_tasks, s.timeouts_offered, s.timeouts_fired, s.timeouts_natural, s.cores_asked, s.short_writes, s.write_eintr, s.stderr_prints, s.prints_after_exit, s.clock_reads, s.shuttle_runs, s.programs_spawned, s.programs_missing, s.fd_limit_decisions, s.emfile, s.max_open_fds, s.parallel_stages, s.read_faults_injected, s.write_faults_injected]
 }
 fn stats_from_vec(v: &[u64]) -> RunStats {
     RunStats {
@@ -143,9 +167,10 @@ fn stats_from_vec(v: &[u64]) -> RunStats {
         max_open_fds: v[34],
         parallel_stages: v[35],
         read_faults_injected: v[36],
+        write_faults_injected: v[37],
     }
 }
-const N_STATS: usize = 37;
+const N_STATS: usize = 38;
 
 fn put_decision(w: &mut W, d: &Decision) {
     match d {
@@ -207,6 +232,10 @@ fn put_decision(w: &mut W, d: &Decision) {
             w.u64(8);
             w.u64(*at);
         }
+        Decision::WriteFault { at } => {
+            w.u64(9);
+            w.u64(*at);
+        }
     }
 }
 
@@ -252,6 +281,7 @@ fn get_decision(r: &mut R) -> Result<Decision, String> {
         },
         7 => Decision::FdLimit { n: r.u64()? as u32 },
         8 => Decision::ReadFault { at: r.u64()? },
+        9 => Decision::WriteFault { at: r.u64()? },
         t => return Err(format!("unknown decision tag {}", t)),
     })
 }
@@ -533,6 +563,46 @@ pub fn fork_call(f: impl FnOnce() -> Vec<u8>) -> Result<Vec<u8>, String> {
     Ok(buf)
 }
 
+/// (round 11) A gating fault (read error, full disk, open-file limit, stalled machine, missing
+/// tool) fired in this child: tell the parent at once. A child that then dies without a result —
+/// the engine aborts when a worker thread's panic tears the execution down while destructors of
+/// the program still use synchronisation primitives (control `n3_r4`) — died *loudly under a
+/// fault*, which a program may do; without the notice the parent would report the death as a
+/// failure under a legal schedule.
+pub const FAULT_NOTICE: &[u8; 8] = b"GSFAULT1";
+static NOTICE_SENT: AtomicBool = AtomicBool::new(false);
+pub fn child_fault_notice() {
+    if !IN_CHILD.load(Ordering::Relaxed) {
+        return;
+    }
+    let fd = CHILD_FD.load(Ordering::Relaxed);
+    if fd < 0 || NOTICE_SENT.swap(true, Ordering::SeqCst) {
+        return;
+    }
+    unsafe { libc::write(fd, FAULT_NOTICE.as_ptr() as *const libc::c_void, FAULT_NOTICE.len()) };
+}
+
+/// write end of the result pipe in a forked child of `run_in_child` (-1 elsewhere)
+pub static CHILD_FD: std::sync::atomic::AtomicI32 = std::sync::atomic::AtomicI32::new(-1);
+
+/// In a forked child: send this result to the parent and end the process here and now.
+pub fn child_send_and_die(r: &RunResult) -> ! {
+    let fd = CHILD_FD.load(Ordering::Relaxed);
+    let buf = encode(r);
+    let mut off = 0usize;
+    while off < buf.len() {
+        let n = unsafe { libc::write(fd, buf[off..].as_ptr() as *const libc::c_void, buf.len() - off) };
+        if n <= 0 {
+            break;
+        }
+        off += n as usize;
+    }
+    unsafe {
+        libc::close(fd);
+        libc::_exit(0);
+    }
+}
+
 /// what the parent learns from one isolated run
 pub enum Outcome {
     Done(RunResult),
@@ -540,6 +610,8 @@ pub enum Outcome {
     Hung(u64),
     /// the child died without a result (abort, stack overflow, signal)
     Died(String),
+    /// the child died without a result after a gating fault had fired in it: a loud failure
+    DiedUnderFault(String),
 }
 
 /// Execute `f` in a forked child and bring its result back.
@@ -561,6 +633,7 @@ pub fn run_in_child(gen: Gen, f: impl FnOnce() -> RunResult) -> Outcome {
         // ---- child: exactly one simulated execution, then gone without running any destructor
         IN_CHILD.store(true, Ordering::SeqCst);
         unsafe { libc::close(fds[0]) };
+        CHILD_FD.store(fds[1], Ordering::SeqCst);
         let r = std::panic::catch_unwind(std::panic::AssertUnwindSafe(f));
         let buf = match r {
             Ok(r) => encode(&r),
@@ -627,13 +700,18 @@ pub fn run_in_child(gen: Gen, f: impl FnOnce() -> RunResult) -> Outcome {
         return Outcome::Hung(LIMIT_S.load(Ordering::Relaxed));
     }
     unsafe { libc::waitpid(pid, &mut status, 0) };
+    let mut under_fault = false;
+    while buf.starts_with(FAULT_NOTICE) {
+        buf.drain(..FAULT_NOTICE.len());
+        under_fault = true;
+    }
     if buf.is_empty() {
         let how = if libc::WIFSIGNALED(status) {
             format!("killed by signal {}", libc::WTERMSIG(status))
         } else {
             format!("exit status {}", libc::WEXITSTATUS(status))
         };
-        return Outcome::Died(how);
+        return if under_fault { Outcome::DiedUnderFault(how) } else { Outcome::Died(how) };
     }
     match decode(gen, &buf) {
         Ok(r) => Outcome::Done(r),
